@@ -10,9 +10,9 @@ def mc_consts(threads, nops, setup, maxe=10, keys=KEYS, kinds=ALLK):
     return dict(Threads=tla_set(threads), Keys=tla_set(keys), MaxE=maxe, OpKinds=kinds, NOps=nops, SetupLen=setup)
 
 
-def program(setup, progs, mode, n=0, seed=1, fine=0, schedule=None, keys=KEYS, preempt=0):
+def program(setup, progs, mode, n=0, seed=1, fine=0, schedule=None, keys=KEYS, preempt=0, epi=0):
     return dict(setup=setup_calls(setup), progs=[thread_calls(i + 1, p) for i, p in enumerate(progs)],
-                mode=mode, n=n, seed=seed, fine=fine, schedule=schedule or [], keys=keys, preempt=preempt)
+                mode=mode, n=n, seed=seed, fine=fine, schedule=schedule or [], keys=keys, preempt=preempt, epi=epi)
 
 
 def check(run):
@@ -42,9 +42,21 @@ def check(run):
     progs = [(s, [[a], [b]]) for s in lay for (a, b) in pairs]
     cap = 400
     # quick: every schedule with at most 2 preemptions; thorough: additionally the full depth-first enumeration (capped)
-    conc = [program(list(s), p, "dfs", n=cap, fine=1, preempt=2 if q else 3) for (s, p) in progs]
+    # (the sequential epilogue comes in two orders, "reads first" and "stores first"; quick alternates them by program, thorough runs both)
+    conc = [program(list(s), p, "dfs", n=cap, fine=1, preempt=2 if q else 3, epi=(i + run.seed) % 2) for i, (s, p) in enumerate(progs)]
     if not q:
-        conc += [program(list(s), p, "dfs", n=cap, fine=1, preempt=0) for (s, p) in progs]
+        conc += [program(list(s), p, "dfs", n=cap, fine=1, preempt=0, epi=1 - (i + run.seed) % 2) for i, (s, p) in enumerate(progs)]
+    # one call racing a two-call goroutine (1 x 2): every <= 2-preemption schedule, from a seeded sample of layouts x call triples
+    triples = [(a, b, c) for a in ops for b in ops for c in ops]
+    n12 = 400 if q else len(triples) * len(lay)
+    if q:
+        for i in range(n12):
+            a, b, c = run.rng.choice(triples)
+            conc.append(program(list(run.rng.choice(lay)), [[a], [b, c]], "dfs", n=cap, fine=0, preempt=2, epi=i % 2))
+    else:      # thorough: every layout x every call triple
+        for s in lay:
+            for j, (a, b, c) in enumerate(triples):
+                conc.append(program(list(s), [[a], [b, c]], "dfs", n=cap, fine=0, preempt=2, epi=1))
     # 3 goroutines x 1 call and 2 goroutines x 2 calls: seeded random schedules (beyond the exhaustive bounds)
     rnd = []
     for i in range(60 if q else 1200):
